@@ -11,7 +11,7 @@ CTX = {}
 def gen_case(rng):
     return {'kind': 'schemaleak', 'order': rng.choice(['plain-first', 'over-first']),
             'how': rng.choice(['_schema', '_condition', 'merge_overrides', '_schema_default', 'nested_glob',
-                               'override_after_run']),
+                               'override_after_run', 'shared_params']),
             'glob_child': rng.random() < 0.7, 'ticks': rng.choice([1, 2])}
 
 
@@ -22,6 +22,8 @@ def corpus():
             {'kind': 'schemaleak', 'order': 'plain-first', 'how': '_condition', 'glob_child': True, 'ticks': 1},
             # the same process objects loaded into a second engine after one of them was given an override
             {'kind': 'schemaleak', 'order': 'plain-first', 'how': 'override_after_run', 'glob_child': True, 'ticks': 1},
+            # F48: two processes built from one parameter dictionary that carries a `_schema`
+            {'kind': 'schemaleak', 'order': 'plain-first', 'how': 'shared_params', 'glob_child': True, 'ticks': 1},
             # F33: two glob viewers with nested sub-schemas on one store
             {'kind': 'schemaleak', 'order': 'plain-first', 'how': 'nested_glob', 'glob_child': True, 'ticks': 1}]
 
@@ -61,12 +63,20 @@ def run_impl(case):
         elif case['how'] == '_condition':
             over = Shared({'key': key, 'who': 'over', '_condition': ('a', 'enabled')})
             extra_a, extra_g = ['enabled'], []
+        elif case['how'] == 'shared_params':
+            # both processes are built from one parameter dictionary with a (harmless) `_schema`; afterwards an
+            # override is merged into one of them
+            common = {'key': key, '_schema': {'a': {'x': {'_default': 0}}}}
+            over = Shared(dict(common, who='over'))
+            shared_plain = Shared(dict(common, who='plain'))
+            over.merge_overrides({'a': {'y': {'_default': 10}}})
+            extra_a, extra_g = ['y'], []
         else:
             over = Shared({'key': key, 'who': 'over'})
             if case['how'] != 'override_after_run':
                 over.merge_overrides({'a': {'y': {'_default': 10}}})
             extra_a, extra_g = ['y'], []
-        plain = Shared({'key': key, 'who': 'plain'})
+        plain = shared_plain if case['how'] == 'shared_params' else Shared({'key': key, 'who': 'plain'})
         procs = {'plain': plain, 'over': over} if case['order'] == 'plain-first' else {'over': over, 'plain': plain}
         # the two instances are wired to different nodes for port a
         topology = {name: {'a': ('A',) if name == 'over' else ('A2',), 'g': ('G',)} for name in procs}
